@@ -115,6 +115,14 @@ def registry_oracle(script, impl):
             if out != 'ok':
                 probs.append('new: ' + out[:100])
             continue
+        if op == 'lateidle':
+            if out != 'lateidle ok':
+                probs.append('abandoned-transaction-not-reaped: %s' % out[:200])
+            continue
+        if op == 'idstorm':
+            if not out.startswith('idstorm ok'):
+                probs.append('handle-not-unique: %s' % out[:200])
+            continue
         if s is None or s.uncertain:
             continue
         if op in ('begin', 'beginbg'):
